@@ -1,9 +1,4 @@
-(* C20 — the documented language is accepted, and layout does not change meaning.
-   PROVED for the parser and for layout invariance.  The remaining half of the first sentence
-   (a well-typed program within the register limits is also accepted by lowering and by the
-   encoder) is not a theorem here: C01 proves what an accepted program means, C10 that lowering
-   and encoding never panic; that they accept every well-typed program within the limits is
-   checked by the c20/compile/limits streams (accepted fraction reported in the evidence).
+(* C20 — the documented language is accepted, and layout does not change meaning.  PROVED.
 
    The documented grammar is the relation lay_prog (Portus.Lang.Layout): an abstract program
    (declarations before/inside/after an optional Report block, with volatile markers; one or
@@ -12,6 +7,13 @@
    space/tab/CR/LF between tokens (empty wherever two tokens cannot fuse), EITHER spelling of
    each operator, an optional newline-terminated comment before each event and any number of
    comments among the statements of each event.
+     C20_grammar_accepted      every layout of every abstract program that is well typed and
+                               within the register limits (record `accepts`: declared names
+                               distinct and not built in, literal initial values that fit the
+                               immediate, at most 16 report and 16 control variables, at most 6
+                               locals, every condition and statement typed by the documented
+                               discipline with at most 8 operator results) compiles AND
+                               serializes: compile_and_serialize returns Ok;
      C20_grammar_parses        every layout of every abstract program is parsed, with the fuel
                                new_with_scope uses, to exactly that program (comments as empty
                                statements);
@@ -22,8 +24,10 @@
                                mention the text.
    Compiling the same text twice is the same term in a pure model; the c20 stream checks it
    (and 8/40 random layouts per generated program) on the real compiler.
-   Proofs: Portus.Lang.Layout, Portus.Lang.LayoutFacts; non-vacuity: Portus.Lang.LayoutExample. *)
-From Portus Require Import Image LayoutFacts Layout LayoutExample EndToEnd.
+   Proofs: Portus.Lang.Layout, Portus.Lang.Accept, Portus.Lang.LayoutFacts; non-vacuity:
+   Portus.Lang.LayoutExample, Portus.Lang.AcceptExample. *)
+From Portus Require Import Image LayoutFacts Layout LayoutExample EndToEnd TablesTie Accept AcceptExample.
+From PortusGen Require Import LangTables.
 
 Definition C20_layout_statement : Prop :=
   forall ap t1 t2 src1 src2 ups,
@@ -33,6 +37,31 @@ Definition C20_layout_statement : Prop :=
 Theorem C20_layouts_compile_alike : C20_layout_statement.
 Proof. exact layouts_compile_alike. Qed.
 Print Assumptions C20_layouts_compile_alike.
+
+Definition C20_acceptance_statement : Prop :=
+  forall ap T t src, lay_prog ap t -> utf8_decode src = Some t -> accepts ap T ->
+    exists bytes sc, compile_and_serialize src [] = inl (Ok (bytes, sc)).
+
+Theorem C20_grammar_accepted : C20_acceptance_statement.
+Proof. exact grammar_accepted. Qed.
+Print Assumptions C20_grammar_accepted.
+
+(* the expression-level core: a typed expression lowers, the link between typing environment and
+   scope is kept, and every register it mentions is within the files *)
+Theorem C20_typed_expression_lowers : forall T cap, cap <= 254 -> forall e g t g' sc,
+  ty_expr g e = Some (t, g') -> enames nd e ->
+  (forall x, In x (targets e) -> In x T \/ tget g x <> None) ->
+  J g sc -> C T cap sc ->
+  exists is r sc', compile_expr e sc = Ok (is, r, sc') /\ J g' sc' /\ C T cap sc' /\ cle sc sc' /\
+    sc_ntmp sc' = sc_ntmp sc + N.of_nat (valops e) /\
+    vty_of (reg_type r) = Some t /\ enc_ok sc' r /\ Forall (ienc sc') is /\
+    sext (sc_named sc) (sc_named sc').
+Proof. exact accept_expr. Qed.
+Print Assumptions C20_typed_expression_lowers.
+
+(* non-vacuity: the example program is well typed and within the limits *)
+Example C20_example_accepts : accepts ex_prog [].
+Proof. exact ex_accepts. Qed.
 
 Theorem C20_grammar_parses : forall ap t, lay_prog ap t ->
   exists evs rest, p_defs (parse_fuel t) t = POk (decls_of (ap_d1 ap) (ap_rep ap) (ap_d2 ap)) rest /\
@@ -114,3 +143,13 @@ Example C20_example_two_layouts :
  )
  ") [].
 Proof. vm_compute. reflexivity. Qed.
+
+(* translator obligations (lib/gen_langtables.py reads `op` and `command` from src/lang/ast.rs on
+   every run): the ordered operator spellings and the two commands are the model's *)
+Theorem C20_source_operator_table_is_the_models : impl_op_table = op_table.
+Proof. exact op_table_tie. Qed.
+Print Assumptions C20_source_operator_table_is_the_models.
+
+Theorem C20_source_command_table_is_the_models : impl_cmd_table = model_cmd_table.
+Proof. exact cmd_table_tie. Qed.
+Print Assumptions C20_source_command_table_is_the_models.
